@@ -50,6 +50,7 @@ class Explorer(object):
         s.set('timeout', self.timeout_ms)
         s.add(*self.assumes)
         s.add(*self.pc)
+        s.add(*state.S.axioms)          # side conditions of algebraic symbols / stub contracts created so far on this path
         s.add(extra)
         t = time.time()
         r = str(s.check())
